@@ -8,7 +8,7 @@ from ..cfg import NORMAL, Node, handler_classes
 from ..core import Ctx
 from ..flow import ALL, find_path, names_in
 from ..model import AnalysisError, FunctionInfo, dotted, norm_text
-from .common import (call_keywords, path_arg, facts_at, known_null_call, edge_target, handler_exits, handler_nodes, hint_write_nodes, in_handler, is_const, kwarg,
+from .common import (judged_in_callers, call_keywords, path_arg, facts_at, known_null_call, edge_target, handler_exits, handler_nodes, hint_write_nodes, in_handler, is_const, kwarg,
                      reachable_from)
 
 EXPLANATION = (
@@ -22,7 +22,8 @@ EXPLANATION = (
     " Also: (R7) the pointer is written after the metadata file, by the two sanctioned writers only; (R8) recovery's listing is complete."
     " (R9) a pointer naming a missing file leads to recovery, not to 'no table' (shared with C10.R2); (R10) no truthiness test of a version number (shared with C10.R12); R2 additionally requires the conflict handler to catch exactly CASConflictError."
     ' (R11) the conditional pointer PUT is never retried (C20.R3); (R12) only the sanctioned functions write the pointer (C09.R1).'
-    " (R13) recovery's S3 listing walks every page (C20.R10); (R14) UTC ages (C20.R11); (R15) an AMBIGUOUS create-if-absent pointer write keeps the creator's metadata file (no delete on that path of initialize_table).")
+    " (R13) recovery's S3 listing walks every page (C20.R10); (R14) UTC ages (C20.R11); (R15) an AMBIGUOUS create-if-absent pointer write keeps the creator's metadata file (no delete on that path of initialize_table)."
+    ' (R16) the schema is written once: stores to TableMetadata.schemas / current_schema_id only in the creation path and the deserialiser.')
 NOT_DECIDED = "the interleavings; that every caller ends on the same table at run time"
 
 MM = "metadata_manager.MetadataManager"
@@ -48,7 +49,64 @@ def check(ctx: Ctx) -> None:
     r10_listing_exhaustive(ctx, "C18.R13")
     from .c20 import r11_utc_ages
     r11_utc_ages(ctx, "C18.R14")
+    schema_written_once(ctx)
     init_ambiguous_keeps_v0(ctx)
+
+
+SCHEMA_OWNERS = {
+    "datashard.transaction.Table._initialize_table": "creation: the schema handed to create_table / Table(schema=) becomes the first metadata version",
+    "datashard.metadata_manager.MetadataManager._dict_to_metadata": "the deserialiser rebuilds what was persisted",
+    "datashard.data_structures.TableMetadata.__post_init__": "the empty placeholder of a schema-less table",
+    "datashard.metadata_manager.MetadataManager.initialize_table": "creation without a caller-supplied metadata object",
+}
+
+
+def schema_written_once(ctx: Ctx, rid: str = "C18.R16") -> None:
+    ctx.rule(rid, "the table's schema is decided at creation and never replaced: every store to TableMetadata.schemas / "
+             "current_schema_id (attribute assignment, or the keyword of a TableMetadata(...) / replace(...) call whose value is "
+             "not a copy of another metadata object's field) lies in the creation path or the deserialiser - an 'adopt' / 'repair' "
+             "step elsewhere lets a second create_table(schema=B) replace the schema rows were already committed under", 3)
+    from .common import owner_tops
+    fields = ("schemas", "current_schema_id")
+    n_sites = 0
+    for f in sorted(ctx.prog.functions.values(), key=lambda x: x.qname):
+        if isinstance(f.node, ast.Lambda) or judged_in_callers(ctx, f):
+            continue
+        g = ctx.cfg(f)
+        sites = []
+        for n in g.nodes:
+            if n.id not in g.reachable():
+                continue
+            if n.kind == "stmt" and isinstance(n.ast, (ast.Assign, ast.AugAssign)):
+                tg = n.ast.targets if isinstance(n.ast, ast.Assign) else [n.ast.target]
+                for t in tg:
+                    if isinstance(t, ast.Attribute) and t.attr in fields:
+                        sites.append((n, t.attr, n.ast.value))
+                    if isinstance(t, ast.Subscript) and isinstance(t.value, ast.Attribute) and t.value.attr in fields:
+                        sites.append((n, t.value.attr, n.ast.value))
+            if n.kind == "call" and isinstance(n.ast, ast.Call):
+                leaf = (dotted(n.ast.func) or "").split(".")[-1]
+                is_md = (n.callee is not None and n.callee.kind == "ctor" and n.callee.cls is not None and n.callee.cls.name == "TableMetadata") \
+                    or leaf in ("replace", "_replace")
+                if is_md:
+                    sites += [(n, k.arg, k.value) for k in n.ast.keywords if k.arg in fields]
+                if isinstance(n.ast.func, ast.Attribute) and n.ast.func.attr in ("append", "extend", "insert", "clear", "pop", "remove") \
+                        and isinstance(n.ast.func.value, ast.Attribute) and n.ast.func.value.attr == "schemas":
+                    sites.append((n, "schemas", n.ast))
+        if not sites:
+            continue
+        owners = owner_tops(ctx, f)
+        reasons = [SCHEMA_OWNERS.get(ctx.prog.anchor(o)) for o in owners]
+        sanctioned = bool(owners) and all(r is not None for r in reasons)
+        for n, fld, v in sites:
+            n_sites += 1
+            copy_of = isinstance(v, ast.Attribute) and v.attr == fld  # new.schemas = base.schemas
+            ctx.ob(rid, f, f"store to {fld} in a sanctioned place", n, sanctioned or copy_of,
+                   (reasons[0] if sanctioned else "a plain copy of another metadata object's field") if (sanctioned or copy_of) else
+                   f"`{n.text[:70]}` in {f.name} sets the table's schema outside creation: the schema rows were committed under can "
+                   "be replaced by a later caller's", text=f"{fld}")
+    if n_sites == 0:
+        raise AnalysisError("no store to TableMetadata.schemas found (creation path vanished)")
 
 
 def init_ambiguous_keeps_v0(ctx: Ctx, rid: str = "C18.R15") -> None:
